@@ -289,11 +289,17 @@ pub const C06_MAX_NODES: usize = 12;
 pub const C06_MAX_QDEPTH: usize = 2;
 pub const C06_MAX_INPUT: usize = 6;
 
-/// the largest number of zero-width iterations one repeat iterator may perform on an input of
-/// `len` characters (calibrated: the largest value observed on the unmodified engine is
-/// 2 * (len + 1) + 4, see DESIGN.md)
+/// the largest number of iterations one repeat iterator may start directly after an iteration
+/// that consumed nothing (hook H4), on an input of `len` characters. Calibration on the
+/// unmodified engine, outside the shape of the known finding: at most len + 2 (the priming loop of
+/// a greedy iterator stacks one empty iteration per remaining character, and the progress guard
+/// ends it after five results); a reluctant iterator only extends an empty iteration while its
+/// minimum is not reached, which gives k^min combinations per position for k empty alternatives -
+/// linear in the input with a factor that depends on the pattern only. The bound is quadratic
+/// in len: far above both, far below a run that doubles with every character at the 10-16
+/// characters of stratum (d).
 pub fn c06_zero_width_cap(len: usize) -> u64 {
-    8 * (len as u64 + 2)
+    8 * (len as u64 + 2) * (len as u64 + 2)
 }
 
 /// loops whose body is zero-width only conditionally (an anchor, a back-reference to an empty or
@@ -413,10 +419,9 @@ impl Monitor for C06 {
             }
         };
         let s = &c.input;
-        // trace monitor on hook H4: no repeat iterator performs a long run of iterations that
-        // consume nothing. An iterator over a possibly-empty body is cut off by the engine's
-        // progress guard after a handful of results, each of which can re-extend by at most one
-        // empty iteration per remaining character, so the count stays linear in the input.
+        // trace monitor on hook H4: no repeat iterator keeps extending a loop whose last iteration
+        // consumed nothing. (Counting every empty iteration would not do: legitimate exponential
+        // backtracking over consuming iterations ends each attempt with one empty iteration.)
         let zw_cap = if std::env::var("RXV_C06_CALIBRATE").is_ok() { u64::MAX } else { c06_zero_width_cap(s.chars().count()) };
         // the hook unwinds as soon as one iterator exceeds the cap, so that a run that doubles with
         // every character costs about as many steps as the cap, not 2^len
@@ -433,7 +438,7 @@ impl Monitor for C06 {
             let n = engine::last_zero_width();
             zw_seen = zw_seen.max(n);
             if n > zw_cap {
-                Some(Outcome::Violated(vec![Finding::new(&format!("zero_width_iteration_run_{}", api), format!("one repeat iterator performed {} iterations that consumed no input", n), format!("at most {} for an input of {} characters", zw_cap, s.chars().count()))]))
+                Some(Outcome::Violated(vec![Finding::new(&format!("zero_width_iteration_run_{}", api), format!("one repeat iterator started {} iterations directly after an iteration that consumed no input", n), format!("at most {} for an input of {} characters", zw_cap, s.chars().count()))]))
             } else {
                 None
             }
